@@ -187,9 +187,17 @@ func decGuard(f func() (*sidecar.Ticket, error)) decOutcome {
 	case o := <-ch:
 		return o
 	case <-time.After(5 * time.Second):
+		decTimeouts++
 		return decOutcome{Class: "timeout"}
 	}
 }
+
+// decTimeouts counts watchdog expiries; a tree on which decoding hangs must
+// not cost 5 s per case for thousands of cases: the runners stop generating
+// once decStalled() holds.
+var decTimeouts int
+
+func decStalled() bool { return decTimeouts >= 3 }
 
 // decRisky reports whether b contains, at any offset, a BigSize integer in
 // [2^27, 2^63): if an uncapped decoder took it for a record length it would
@@ -486,4 +494,27 @@ func decEncodePayload(payload []byte, otherVersion bool, v byte) string {
 	}
 	raw := append(append([]byte{ver}, payload...), h[:4]...)
 	return "sidecar" + base58.Encode(raw)
+}
+
+// decSkipString: decSkip for the string form.
+func decSkipString(s string) bool {
+	return len(s) > 7 && decSkip(base58.Decode(s[7:]))
+}
+
+// decDeserializeRaw / decDecodeStringRaw run the real decoders in the calling
+// goroutine (the caller recovers) and return the outcome class.
+func decDeserializeRaw(b []byte) string {
+	t, err := sidecar.DeserializeTicket(bytes.NewReader(b))
+	if err != nil {
+		return "err:" + decErrName(err)
+	}
+	return "ok:" + decFmtTicket(t)[:16]
+}
+
+func decDecodeStringRaw(s string) string {
+	t, err := sidecar.DecodeString(s)
+	if err != nil {
+		return "err:" + decErrName(err)
+	}
+	return "ok:" + decFmtTicket(t)[:16]
 }
